@@ -20,7 +20,7 @@ structure TInv (cfg : Config S) (draws : Nat → S) (s : RT S) : Prop where
   tgt : ∀ t, s.target = some t → ∃ n, t = waypoint cfg draws n
 
 theorem tinv_init (cfg : Config S) (draws : Nat → S) : TInv cfg draws (RT.init : RT S) := by
-  constructor <;> simp [RT.init, Chains.fresh]
+  constructor <;> simp [RT.init]
 
 /-- the telemetry dispatch while a trip is ongoing -/
 theorem telemetry_on (cfg : Config S) (draws : Nat → S) (s : RT S) (pos : V3 S) {h : Nat} {t : V3 S}
@@ -42,7 +42,7 @@ theorem telemetry_off (cfg : Config S) (draws : Nat → S) (s : RT S) (pos : V3 
 theorem dropHandler_on (s : RT S) {h : Nat} (hh : s.handler = some h) (hc : s.chains .telemetry = [.h h, .own]) :
     (dropHandler s).chains .telemetry = [.own] ∧ (dropHandler s).cmds = s.cmds ∧ (dropHandler s).used = s.used ∧
     (dropHandler s).target = s.target ∧ (dropHandler s).nextH = s.nextH := by
-  simp [dropHandler, hh, Chains.unregister, hc, Chains.set]
+  simp [dropHandler, hh, Chains.unregister, hc]
 
 theorem tinv_travel {cfg : Config S} {draws : Nat → S} {s : RT S} (hs : TInv cfg draws s) :
     TInv cfg draws (travel cfg draws s).1 := by
